@@ -109,6 +109,14 @@ func witnesses() []wit {
 		ws = append(ws, wit{"running-element-stale-page", "a running element that ends a line box is registered for page 1 when that line is first tried there; the line is pushed to page 2 (widows), the registration stays, and the margin box of page 1 shows an element whose anchor is on page 2",
 			Input{HTML: html, Flows: []Flow{{ID: "", Kind: "main", Text: frag(a + b)}, {ID: "r1", Kind: "running", Text: "w9q", Prev: "w4q", Next: "w5q"}}, Mode: "witness"}})
 	}
+	{
+		head := `<style>@page{size:188px 400px;margin:4px}html{margin:0;padding:0}body{font-family:ahem;font-size:12px;line-height:1.5;margin:0;word-break:break-all}</style>`
+		a := `<strong style="white-space:nowrap">waqABCDEFGHIJKLMN</strong> wdqAB weqA `
+		b := ` wlqAB`
+		html := head + `<body><div id="f2" style="float:left;width:12em">` + a + `<span id="f3" style="float:right;width:10em">wfq</span>` + b + `</div></body>`
+		ws = append(ws, wit{"word-lost-before-nested-float", "inside a float (or absolutely positioned box) with an explicit width, a line made too long by a nowrap run is followed by a word and a nested float that does not fit: the word before the nested float (weqA) is laid out on no line; the same content in a normal block, an inline-block or a table cell keeps it",
+			Input{HTML: html, Flows: []Flow{{ID: "", Kind: "main"}, {ID: "f2", Kind: "float", Text: frag(a + b)}, {ID: "f3", Parent: "f2", Kind: "float", Text: "wfq", Prev: "weq", Next: "wlq"}}, Mode: "witness"}})
+	}
 	return ws
 }
 
